@@ -302,11 +302,14 @@ type Run struct {
 	depth    int
 
 	serializationOnly bool
-	coords            []*coordEntry
-	generic           []Pred // genericity assumptions (lazily added to queries, see DESIGN §4.1)
-	genericK          map[string]bool
-	interned          []internEntry
-	handleIx          map[string]int
+	// genericNonIdentity: see SetGenericNonIdentity
+	genericNonIdentity       bool
+	GenericIdentityDecisions int
+	coords                   []*coordEntry
+	generic                  []Pred // genericity assumptions (lazily added to queries, see DESIGN §4.1)
+	genericK                 map[string]bool
+	interned                 []internEntry
+	handleIx                 map[string]int
 
 	witness   map[int]*big.Int
 	witnessOK bool
@@ -361,6 +364,13 @@ func (r *Run) checkPoison() {
 
 // AssumeDrawsNonZero makes every subsequently sampled random element carry the assumption ≠ 0.
 func (r *Run) AssumeDrawsNonZero() { r.genericDraws = true }
+
+// SetGenericNonIdentity makes IsOpIdentity on a symbolic, not syntactically trivial point answer
+// "no" without forking and records the literal "≠ identity" in the path condition. Honest-run
+// harnesses of protocols that refuse identity points (each such refusal has probability 1/q) use it
+// to exclude those measure-zero refusals wholesale; the recorded literals are part of the path
+// condition, so a reach marker at the end still guards against vacuity. Stated in the evidence.
+func (r *Run) SetGenericNonIdentity(on bool) { r.genericNonIdentity = on }
 
 func (r *Run) drawVar(name string) *Poly {
 	r.mu.Lock()
